@@ -268,7 +268,7 @@ def run(ctx: Ctx) -> None:
     ctx.rule = (
         "packages of 4-8 functions and 1-3 classes (methods, constructor documented on the class) whose 1-4 parameters and "
         "result each draw (hint, docstring type) from {(-,-), (-,A), (A,-), (A,A), (A,B)} over 7 types, rendered in one of the "
-        "three structured styles and run under CODE/DOCSTRING x WARN/IGNORE (4 runs per case). evaluations = runs + judged "
+        "three structured styles (methods are instance / static / class methods; half of the signatures share parameter names with other functions; documented order may differ from the signature) and run under CODE/DOCSTRING x WARN/IGNORE (4 runs per case). evaluations = runs + judged "
         "slots; non-trivial = case with at least one conflicting and one agreeing slot."
     )
     ctx.assumptions = [
